@@ -5,7 +5,7 @@ cd "$(dirname "$0")"
 export GOFLAGS=-mod=mod GOPROXY=off GOSUMDB=off GOTOOLCHAIN=local
 mkdir -p .build evidence
 cp /repo/go.sum harness/go.sum
-(cd harness && go build -tags verif -o ../.build/acvh ./cmd/acvh)
+(cd harness && go build -tags verif -o ../.build/acvh ./cmd/acvh && go build -race -tags verif -o ../.build/acvh-race ./cmd/acvh)
 rm -rf .build/sany && mkdir -p .build/sany && cp spec/*.tla spec/trace/*.tla .build/sany/
 for f in .build/sany/*.tla; do
   (cd .build/sany && tla-sany "$(basename "$f")" >/dev/null 2>&1) || { echo "SANY failed on $f"; exit 1; }
